@@ -5,7 +5,8 @@
    Hosts and paths are names; HC gives a host's class ("dns", "idn", "ipv4", "ipv6"), Canon the canonical name of a
    path as it is written in a URL (an empty path is "/", an empty query or fragment disappears).
    Deviations of the code that the model carries on purpose:
-     NoBrackets  hostport() writes an IPv6 host without brackets, so url / Host / authority become unreadable
+     NoBrackets  (FALSE since /repo 4d0254b30; TRUE describes the code before: hostport() wrote an IPv6 host without
+                 brackets, so url / Host / authority became unreadable)
      UnicodeUrl  the url getter writes an IDN host as U-label, and url.parse() cannot take non-ASCII text       *)
 EXTENDS Mon_ReqUrl, TLC
 CONSTANTS HC,         \* host name -> class
@@ -20,7 +21,7 @@ CONSTANTS HC,         \* host name -> class
 VARIABLES req, ops, mon, obs
 vars == <<req, ops, mon, obs>>
 
-NoBrackets == TRUE
+NoBrackets == FALSE
 UnicodeUrl == TRUE
 
 Default(s) == IF s = "https" THEN 443 ELSE 80
